@@ -330,7 +330,7 @@ type c08Data struct {
 
 func init() {
 	Register(&Scenario{
-		Prop: "C08", Name: "sub-registry-fanout",
+		Prop: "C08", Name: "sub-registry-fanout", Weight: 3,
 		NonTrivial: []string{"fanout-notify-to-subscriber"},
 		Build: func(w *World) {
 			pr := BuildProto(w, ProtoOpt{Peers: 2 + w.T.Choose(2, "peers"), MinServers: 2})
